@@ -486,4 +486,78 @@ example : runClauses (doVerb true)
     .ok { name := str "Foo", context := some (str "enter"), ioinits := [(str "x", .int 1)],
           preParms := [(str "me.pos", [str "a", str "b"])] } := by decide +kernel
 
+/-! ## the marker clauses of a need: `… is updated [in frame [name]] [by marker]` -/
+
+/-- what may follow the marker clauses of a need: nothing, or a reserved word other than `in` and `by`
+(in practice `and`, the connective of the next need) -/
+def MarkerRest (rest : List Str) : Prop :=
+  rest = [] ∨ ∃ k r, rest = k :: r ∧ isReserved k = true ∧ k ≠ str "in" ∧ k ≠ str "by"
+
+theorem markerLoop_stop {rest : List Str} (h : MarkerRest rest) (s : MarkerCfg) :
+    markerLoop rest s = .ok (s, rest) := by
+  rcases h with rfl | ⟨k, r, rfl, _, h1, h2⟩
+  · rfl
+  · have e1 : (k == str "in") = false := by simpa using h1
+    have e2 : (k == str "by") = false := by simpa using h2
+    unfold markerLoop; simp [e1, e2]
+
+theorem markerLoop_by (m : Str) (rest : List Str) (s : MarkerCfg) :
+    markerLoop (str "by" :: m :: rest) s = markerLoop rest { s with marker := stripQuotes m } := by
+  conv => lhs; rw [markerLoop.eq_def]
+  have : (str "by" == str "in") = false := by decide
+  simp [this]
+
+theorem markerLoop_in_named (name : Str) (hn : isReserved name = false) (hi : identPub name = true)
+    (rest : List Str) (s : MarkerCfg) :
+    markerLoop (str "in" :: str "frame" :: name :: rest) s = markerLoop rest { s with frame := name } := by
+  conv => lhs; rw [markerLoop.eq_def]
+  simp [hn, hi]
+
+theorem markerLoop_in_bare (rest : List Str)
+    (hr : rest = [] ∨ ∃ k r, rest = k :: r ∧ isReserved k = true) (s : MarkerCfg) :
+    markerLoop (str "in" :: str "frame" :: rest) s =
+      (match rest with
+       | [] => .ok ({ s with frame := str "me" }, [])
+       | _ => markerLoop rest { s with frame := str "me" }) := by
+  rcases hr with rfl | ⟨k, r, rfl, hk⟩
+  · conv => lhs; rw [markerLoop.eq_def]
+    simp
+  · conv => lhs; rw [markerLoop.eq_def]
+    simp [hk]
+
+/-- **the `in frame [name]` and `by marker` clauses of an `is updated` / `is changed` need** may be
+written in either order. -/
+theorem C15_marker_need (name : Option Str)
+    (hname : ∀ n, name = some n → isReserved n = false ∧ identPub n = true)
+    (m : Str) (rest : List Str) (hrest : MarkerRest rest) (s : MarkerCfg) :
+    markerLoop ((str "in" :: str "frame" :: name.toList) ++ (str "by" :: m :: rest)) s =
+      .ok ({ frame := name.getD (str "me"), marker := stripQuotes m }, rest) ∧
+    markerLoop ((str "by" :: m :: (str "in" :: str "frame" :: name.toList)) ++ rest) s =
+      .ok ({ frame := name.getD (str "me"), marker := stripQuotes m }, rest) := by
+  have hby : isReserved (str "by") = true := by decide
+  cases name with
+  | some n =>
+    obtain ⟨h1, h2⟩ := hname n rfl
+    constructor
+    · simp only [Option.toList, List.cons_append, List.nil_append]
+      rw [markerLoop_in_named n h1 h2, markerLoop_by, markerLoop_stop hrest]; rfl
+    · simp only [Option.toList, List.cons_append, List.nil_append]
+      rw [markerLoop_by, markerLoop_in_named n h1 h2, markerLoop_stop hrest]; rfl
+  | none =>
+    constructor
+    · simp only [Option.toList, List.cons_append, List.nil_append]
+      rw [markerLoop_in_bare _ (Or.inr ⟨_, _, rfl, hby⟩)]
+      simp only []
+      rw [markerLoop_by, markerLoop_stop hrest]; rfl
+    · simp only [Option.toList, List.cons_append, List.nil_append]
+      rw [markerLoop_by]
+      rcases hrest with rfl | ⟨k, r, rfl, hk, h3, h4⟩
+      · rw [markerLoop_in_bare [] (Or.inl rfl)]; rfl
+      · rw [markerLoop_in_bare _ (Or.inr ⟨k, r, rfl, hk⟩)]
+        simp only []
+        rw [markerLoop_stop (Or.inr ⟨k, r, rfl, hk, h3, h4⟩)]; rfl
+
+example : markerLoop [str "by", str "\"m 1\"", str "in", str "frame", str "and", str "x"] {} =
+    .ok ({ frame := str "me", marker := str "m 1" }, [str "and", str "x"]) := by decide +kernel
+
 end Ioflo.Clauses
